@@ -346,7 +346,9 @@ func TestC06Probe(t *testing.T) {
 	}
 }
 
-var c06EvalExprs = []string{"1+2", "x=5", "x = y + 1", "x++ + y", "(1+2)*3", "1/0", "08 + 1", "x = 08", "1 +", "x += 1, y", "1 2", "a b c d", "y = 1/0", "08 09", "1 @ 2 3", "x = 1 ? 2 : 3", "x += y = 3", "-x", "(1", "1))", "x ==", "7 % 0 + 08"}
+var c06EvalExprs = []string{"1+2", "x=5", "x = y + 1", "x++ + y", "(1+2)*3", "1/0", "08 + 1", "x = 08", "1 +", "x += 1, y", "1 2", "a b c d", "y = 1/0", "08 09", "1 @ 2 3", "x = 1 ? 2 : 3", "x += y = 3", "-x", "(1", "1))", "x ==", "7 % 0 + 08",
+	// a syntax error with an illegal character directly behind the failing token: both sides report at the same time
+	"1 1 @", "1 ) $", "x = * #", "1 2 3 @", "( ) @", "1 + + `"}
 
 func TestC06(t *testing.T) {
 	st := newStats("C06")
